@@ -195,6 +195,27 @@ func render(n *Node) string {
 	case "ifchain":
 		// conditions that are host calls: a failing condition is a failing statement, whichever arm it guards
 		return "if p(" + id + ") != nil {\n" + renderList(n.Body) + "\n} else if p(" + strconv.Itoa(n.N) + ") != nil {\n" + renderList(n.Catch) + "\n} else {\n" + renderList(n.Else) + "\n}"
+	case "logic":
+		// both operands of a logical operator are host calls and the left one never decides alone (false for ||,
+		// true for &&): a failing left operand is a failing statement, the right operand must not run after it
+		a, b := "pv("+id+", 0)", "pv("+strconv.Itoa(n.N)+", 0)"
+		switch n.Val % 4 {
+		case 0:
+			return "lg" + id + " = " + a + " == 1 || " + b + " == 1"
+		case 1:
+			return "lg" + id + " = " + a + " != 1 && " + b + " != 1"
+		case 2:
+			return "if " + a + " == 1 || " + b + " == 1 {\npv(" + id + ", \"wrong arm\")\n}"
+		}
+		return "for " + a + " != 1 && " + b + " == 1 {\npv(" + id + ", \"wrong arm\")\nbreak\n}"
+	case "switchc":
+		// case expressions that are host calls (none of them yields the switch value): a failing case expression is
+		// a failing statement - no later case expression, no clause body, no default block runs after it
+		dflt := ""
+		if !n.Var {
+			dflt = "default:\n" + renderList(n.Body) + "\n"
+		}
+		return "switch 7 {\ncase pv(" + id + ", 0):\npv(" + id + ", \"wrong case\")\ncase pv(" + strconv.Itoa(n.N) + ", 0):\npv(" + id + ", \"wrong case\")\n" + dflt + "}"
 	case "whilec":
 		if n.Var {
 			return "for k" + id + " = 0; p(" + id + ") != nil; k" + id + "++ {\n" + renderList(n.Body) + "\nbreak\n}"
@@ -611,6 +632,17 @@ func (m *model) exec(n *Node, fr *frame) sig {
 			return m.list(n.Catch, fr)
 		}
 		return m.list(n.Else, fr)
+	case "logic", "switchc":
+		if s := m.host("v:" + id + ":0"); s.kind != 0 {
+			return s
+		}
+		if s := m.host("v:" + strconv.Itoa(n.N) + ":0"); s.kind != 0 {
+			return s
+		}
+		if n.K == "switchc" && !n.Var {
+			return m.list(n.Body, fr)
+		}
+		return sig{}
 	case "whilec":
 		before := m.calls
 		if s := m.host("p:" + id); s.kind != 0 {
@@ -845,7 +877,15 @@ func (g *gen) stmt(c gctx) *Node {
 			lc.noBrk = false
 			return &Node{K: kind, ID: id, N: 1 + g.r.Intn(3), Body: g.stmts(lc, 3)}
 		case k == 13 && !leaf && g.r.Intn(5) == 0:
-			switch g.r.Intn(3) {
+			switch g.r.Intn(5) {
+			case 3:
+				return &Node{K: "logic", ID: id, N: g.id(), Val: g.r.Intn(4)}
+			case 4:
+				sw := &Node{K: "switchc", ID: id, N: g.id(), Var: g.r.Intn(3) == 0}
+				if !sw.Var {
+					sw.Body = g.stmts(inner, 2)
+				}
+				return sw
 			case 0:
 				return &Node{K: "ifchain", ID: id, N: g.id(), Body: g.stmts(inner, 2), Catch: g.stmts(inner, 2), Else: g.stmts(inner, 2)}
 			case 1:
@@ -1250,6 +1290,10 @@ func valid(w *Work) bool {
 				}
 			case "ifchain":
 				if !chk(n.Body, c) || !chk(n.Catch, c) || !chk(n.Else, c) {
+					return false
+				}
+			case "switchc":
+				if !chk(n.Body, c) {
 					return false
 				}
 			case "whilec":
